@@ -16,6 +16,14 @@ G2(f, x, y) == Call(Id(<<"geo">>, f), <<x, y>>)
 Q == 39
 Geo == Lit("Geography", "POINT(1 2)")
 IntList == Lst(<<IntL(1), IntL(2)>>)   StrList == Lst(<<StrL(<<97>>), StrL(<<98>>)>>)
+\* ill-typed calls of the functions overloaded on strings and collections: no argument can be a string or a collection
+WrongLits == { IntL(5), Lit("Float", "1.5"), BoolL("true"), Lit("Date", "2020-02-29"), Lit("Time", "12:30:00"), Lit("DateTime", "2020-02-29T12:30:00Z"),
+               Lit("Duration", "P1DT2H"), Lit("GUID", "01234567-89ab-cdef-0123-456789abcdef"), Geo, NullL }
+\* (literals only: for a nested call or an arithmetic term the inferred type may be 'unknown', and then nothing has to be rejected)
+WrongArgs == WrongLits
+IllTyped == { C2(fn, x, y) : fn \in StringFns, x \in {Id0("s"), Attr(Id0("a"), "name")} \cup WrongLits, y \in WrongArgs }
+            \cup { C2(fn, x, Id0("s")) : fn \in StringFns, x \in WrongArgs }
+            \cup { C1("length", w) : w \in WrongArgs } \cup { C2("substring", w, IntL(1)) : w \in WrongArgs }
 Expand(ty) ==
   CASE ty = "Integer" -> { <<0, IntL(1)>>, <<0, Id0("n")>> }
           \cup { <<1, C1("length", H("String"))>>, <<1, C1("length", H("List"))>>, <<1, C2("indexof", H("String"), H("String"))>>,
@@ -26,7 +34,7 @@ Expand(ty) ==
     [] ty = "Float" -> { <<0, Lit("Float", "1.5")>>, <<0, Id0("f")>> }
           \cup { <<1, C1("round", H("Float"))>>, <<1, C1("floor", H("Float"))>>, <<1, C1("ceiling", H("Float"))>>,
                  <<1, C1("fractionalseconds", H("DateTime"))>>, <<1, C1("totalseconds", H("Duration"))>>,
-                 <<1, G2("distance", Id0("g"), Geo)>>, <<1, Call(Id(<<"geo">>, "length"), <<Id0("g")>>)>>,
+                 <<1, G2("distance", H("Geography"), H("Geography"))>>, <<1, Call(Id(<<"geo">>, "length"), <<Id0("g")>>)>>,
                  <<1, Bin("mul", H("Float"), H("Integer"))>>, <<1, Bin("div", H("Integer"), H("Float"))>> }
     [] ty = "String" -> { <<0, StrL(<<97, Q, 98>>)>>, <<0, Id0("s")>> }
           \cup { <<1, C1("tolower", H("String"))>>, <<1, C1("toupper", H("String"))>>, <<1, C1("trim", H("String"))>>,
@@ -36,7 +44,7 @@ Expand(ty) ==
           \cup { <<1, C2("contains", H("String"), H("String"))>>, <<1, C2("startswith", H("String"), H("String"))>>,
                  <<1, C2("endswith", H("String"), H("String"))>>, <<1, C2("matchesPattern", H("String"), StrL(<<94, 97>>))>>,
                  <<1, C2("hassubset", H("List"), H("List"))>>, <<1, C2("hassubsequence", H("List"), IntList)>>,
-                 <<1, G2("intersects", Id0("g"), Geo)>>,
+                 <<1, G2("intersects", H("Geography"), H("Geography"))>>,
                  <<1, Cmp("eq", H("Integer"), H("Integer"))>>, <<1, Cmp("lt", H("Float"), H("Integer"))>>,
                  <<1, Cmp("ne", H("String"), NullL)>>, <<1, Cmp("ge", H("DateTime"), H("DateTime"))>>,
                  <<1, Cmp("eq", H("Date"), H("Date"))>>, <<1, Cmp("in", H("Integer"), IntList)>>,
@@ -55,8 +63,12 @@ Expand(ty) ==
     [] ty = "List" -> { <<0, IntList>>, <<0, StrList>>, <<0, Id0("l")>>,
                         <<1, C2("concat", H("List"), H("List"))>>, <<1, C2("substring", H("List"), H("Integer"))>> }
 
-Types == {"Integer", "Float", "String", "Boolean", "Date", "Time", "DateTime", "Duration", "List"}
-Init == root \in Types /\ t = H(root) /\ n = 0
+    [] ty = "Geography" -> { <<0, Geo>>, <<0, Lit("Geography", "SRID=4326;POINT(3 4)")>>, <<0, Id0("g")>> }
+    [] ty = "GUID" -> { <<0, Lit("GUID", "01234567-89ab-cdef-0123-456789abcdef")>>, <<0, Id0("id")>> }
+    [] ty = "IllTyped" -> { <<1, x>> : x \in IllTyped }
+
+Types == {"Integer", "Float", "String", "Boolean", "Date", "Time", "DateTime", "Duration", "List", "Geography", "GUID"}
+Init == root \in Types \cup {"IllTyped"} /\ t = H(root) /\ n = 0
 Fill == LET h == FirstHole(t) IN
         /\ h # NoHole
         /\ \E e \in Expand(h[2]) : n + e[1] <= MaxOps /\ t' = FillFirst(t, e[2]) /\ n' = n + e[1]
@@ -64,6 +76,10 @@ Fill == LET h == FirstHole(t) IN
 Next == Fill
 Complete == ~HasHole(t)
 
-GeneratorIsWellTyped == Complete => TypeOf(t) = root
-Export == PrintT(ToJson(IF Complete THEN [k |-> "case", tree |-> t, type |-> root, nops |-> n] ELSE [k |-> "partial"]))
+GeneratorIsWellTyped == (Complete /\ root # "IllTyped") => TypeOf(t) = root
+IllTypedMustBeRejected == (Complete /\ root = "IllTyped") => MustReject(t)
+\* a named deviation: SQLite's LENGTH applies to a value of any type and that dialect performs no check for it
+NoTypeCheck == { <<"sqlite", "length">> }
+Export == PrintT(ToJson(IF Complete THEN [k |-> "case", tree |-> t, type |-> root, nops |-> n,
+                                          exempt |-> IF root = "IllTyped" THEN { e[1] : e \in { x \in NoTypeCheck : x[2] = t[2][3] } } ELSE {}] ELSE [k |-> "partial"]))
 =============================================================================
